@@ -502,11 +502,18 @@ def gen_hist_case(r, max_n, weights=None):
         case["range"] = rg
     rows = [[gen_hist_value(r, rg[d]) for d in range(ndim)] for _ in range(n)]
     case["sample"] = rows
-    use_w = r.chance(0.3) if weights is None else weights
+    use_w = r.chance(0.4) if weights is None else weights
     if use_w:
-        kind = r.choice(["ones", "unit", "big", "neg"])
-        case["weights"] = [1.0 if kind == "ones" else (r.u01() if kind == "unit" else
-                           (r.uniform(0, 5) if kind == "big" else r.uniform(-2, 2))) for _ in range(n)]
+        kind = r.choice(["ones", "unit", "big", "neg", "dyadic", "dyadic"])
+        if kind == "dyadic":
+            # weights in (0, 1] on a dyadic grid: bin totals are exact and land on x.5, x.25, … — the break-points of any
+            # integer conversion of the weighted count (truncation, rounding half to even, …)
+            grid = r.choice([[0.5, 1.0], [0.5, 1.0], [0.25, 0.5, 0.75, 1.0], [0.125, 0.25, 0.375, 0.5, 0.625, 0.75, 0.875, 1.0]])
+            case["weights"] = [r.choice(grid) for _ in range(n)]
+            case["wgrid"] = grid
+        else:
+            case["weights"] = [1.0 if kind == "ones" else (r.u01() if kind == "unit" else
+                               (r.uniform(0, 5) if kind == "big" else r.uniform(-2, 2))) for _ in range(n)]
         case["wkind"] = kind
     else:
         case["weights"] = None
@@ -535,6 +542,10 @@ def gen_hist_value(r, rg):
 def gen_hist_neighbour(r, case):
     n = len(case["sample"])
     rec = r.randint(0, n - 1)
+    if case.get("wkind") == "dyadic" and r.chance(0.6):
+        heavy = [i for i, w in enumerate(case["weights"]) if w == 1.0]      # a weight-1 record leaves / moves
+        if heavy:
+            rec = r.choice(heavy)
     rg = case["range"] or [[min(x), max(x)] for x in ([case["bins"]] if case["tool"] == "histogram" else case["bins"])]
     new = [gen_hist_value(r, rg[d]) for d in range(case["ndim"])]
     if r.chance(0.15):
@@ -546,7 +557,16 @@ def gen_hist_neighbour(r, case):
             w = 1.0
         elif case.get("wkind") == "unit":
             w = r.u01()
-    return {"rec": rec, "new": new, "w": w, "kind": "hist"}
+        elif case.get("wkind") == "dyadic":
+            w = case["weights"][rec] if r.chance(0.5) else r.choice(case["wgrid"])
+            m = r.u01()
+            if m < 0.35:        # leaves the range (or enters it, when the old record was outside)
+                a, b = rg[0]
+                new = list(new)
+                new[0] = b + (b - a)
+            elif m < 0.5:
+                new = list(case["sample"][rec])
+    return {"rec": rec, "new": new, "w": w, "kind": "hist" + ("-dyadic" if case.get("wkind") == "dyadic" else "")}
 
 
 # ----------------------------------------------------------------------------------------------- (S) direct check
@@ -1199,7 +1219,8 @@ def check(ctx):
     for i in range(n_quant):
         one_case(ctx, r, gen_quant_case(r, max_n if i % 4 else 6), 3, lines, pending)
     for i in range(n_hist):
-        one_case(ctx, r, gen_hist_case(r, max_n), 3, lines, pending)
+        hc = gen_hist_case(r, max_n if i % 3 else 6)
+        one_case(ctx, r, hc, 6 if hc.get("wkind") == "dyadic" else 3, lines, pending)
     ctx.count("driver_lines", len(lines))
     if lines:
         outs = leanio.run_driver("Tools", lines)
